@@ -107,7 +107,8 @@ where
 
     trait SpliceFn {
         fn read(&mut self) -> BoxFuture<'_, IoResult<usize>>;
-        fn write(&mut self, more: bool) -> BoxFuture<'_, IoResult<usize>>;
+        // move `len` bytes from the pipe to the destination
+        fn write(&mut self, len: usize, more: bool) -> BoxFuture<'_, IoResult<usize>>;
     }
     type BoxSpliceFn = Box<dyn SpliceFn + Send>;
     struct NullFn;
@@ -115,7 +116,7 @@ where
         fn read(&mut self) -> BoxFuture<'_, IoResult<usize>> {
             unreachable!()
         }
-        fn write(&mut self, _more: bool) -> BoxFuture<'_, IoResult<usize>> {
+        fn write(&mut self, _len: usize, _more: bool) -> BoxFuture<'_, IoResult<usize>> {
             unreachable!()
         }
     }
@@ -134,8 +135,23 @@ where
             fn read(&mut self) -> BoxFuture<'_, IoResult<usize>> {
                 async_splice(&mut self.sfd, &self.pipe.1, self.bufsz, false).boxed()
             }
-            fn write(&mut self, more: bool) -> BoxFuture<'_, IoResult<usize>> {
-                async_splice(&mut self.pipe.0, &self.dfd, self.bufsz, more).boxed()
+            fn write(&mut self, len: usize, more: bool) -> BoxFuture<'_, IoResult<usize>> {
+                async move {
+                    // a splice may move less than what is in the pipe when the destination is slow
+                    let mut left = len;
+                    while left > 0 {
+                        let n = async_splice(&mut self.pipe.0, &self.dfd, left, more).await?;
+                        if n == 0 {
+                            return Err(std::io::Error::new(
+                                std::io::ErrorKind::WriteZero,
+                                "splice to destination returned 0",
+                            ));
+                        }
+                        left -= n;
+                    }
+                    Ok(len)
+                }
+                .boxed()
             }
         }
 
@@ -180,7 +196,7 @@ where
             ret = async {pipe_fn.read().await}, if have_rawfd => {
                 let len = ret.with_context(|| format!("pipe_read from {}", src.name))?;
                 if len > 0 {
-                    pipe_fn.write(len >= params.buffer_size).await.with_context(|| format!("pipe_write to {}", dst.name))?;
+                    pipe_fn.write(len, len >= params.buffer_size).await.with_context(|| format!("pipe_write to {}", dst.name))?;
                     stat.incr_sent_bytes(len);
                     #[cfg(feature = "metrics")]
                     counter.inc_by(len as u64);
